@@ -195,6 +195,31 @@ def run_case(cs):
                 {"kind": "info-sf-lines", "fewer": len(got) < len(want), "more": len(got) > len(want), "same_multiset": sorted(got) == sorted(want), "nested": h != ".", "enclosing_root_given": outer},
                 {**c2, "got": got[:5], "want": want[:5]},
             )
+    # ---------- several files of different histories in one call, no folder given: each is looked up in its own history
+    by_h = {}
+    for f in files:
+        by_h.setdefault(world.owner(f, hists), []).append(f)
+    if len(by_h) >= 2 and rng.random() < 0.5:
+        h1, h2 = rng.sample(sorted(by_h), 2)
+        pair = [rng.choice(by_h[h1]), rng.choice(by_h[h2])]
+        r = drive.run("info", [x for f in pair for x in ("-sf", os.path.join(root, f))])
+        cs.evaluated()
+        cs.count("info_sf_files_of_different_histories")
+        want = []
+        for f in pair:
+            h = world.owner(f, hists)
+            rel = world.rel_to(f, h)
+            for no, name, m in model[h]:
+                for rec in m["hashes"]:
+                    if rec["kind"] == "file" and rec["path"] == rel:
+                        for fm, dg, a, _hd in rec["entries"]:
+                            want.append((no, m["creatorinfo"]["creationdate"], fm, dg, a))
+        if r.internal or r.exit != 0:
+            cs.violation(classify.internal_key(r) if r.internal else "info-sf-nonzero", {"kind": "info-sf-exit", "exit": r.exit, "nested": True, "several_histories": True}, {**ctx, **r.brief()})
+        else:
+            got = [(int(m.group(1)), m.group(2), m.group(3), m.group(4), m.group(5)) for m in (GENF.match(line) for line in r.out.split("\n")) if m]
+            if got != want:
+                cs.violation("info-sf-lines-differ", {"kind": "info-sf-lines", "fewer": len(got) < len(want), "more": len(got) > len(want), "same_multiset": sorted(got) == sorted(want), "nested": True, "several_histories": True}, {**ctx, "files": pair, "got": got[:5], "want": want[:5]})
     # ---------- verbose per-file listing: same generation lines (plus details), no internal error
     if files and rng.random() < 0.3:
         f = rng.choice(files)
